@@ -90,7 +90,7 @@ impl Prop for Faults {
             }
         }
         // the fault-free run itself is what the model says (so "leading records of the input")
-        check_strict(&m, &t0, true)?;
+        check_strict(&m, &t0, false)?;
         // 2. a failure at the k-th source call, for every k
         let calls = t0.src.borrow().calls.clone();
         let kk = calls.len();
